@@ -471,9 +471,8 @@ pub fn expand_glob(tokens: &mut types::Tokens) {
                     }
                 }
                 Err(e) => {
-                    println!("glob error: {:?}", e);
+                    println_stderr!("cicada: glob error: {:?}", e);
                     result.push(item.to_string());
-                    return;
                 }
             }
         }
